@@ -247,6 +247,10 @@ def fresh_value_scenarios():
               "@ true { let i = 0; outer: while i < 2 { i = i + 1; loop { continue outer; } } }", "@ true { fn h(x) { if x { return 1; } 2 } h(0); }",
               "fn top() { return 5; } @ top() == 5 { top(); }"):
         out.append((t, []))
+    # a value compared with itself through one name: not-a-number is unequal to itself however it is reached
+    out.append(("let x = 1e999 - 1e999; push(__o, x != x); push(__o, x == x); if x != x { push(__o, \"nan\"); } let a = [x]; push(__o, a[0] != a[0]); "
+                "fn ne(v) { v != v } push(__o, ne(x)); push(__o, ne(1.5)); let y = 2; push(__o, y != y); push(__o, y == y);",
+                ["true", "false", "\"nan\"", "true", "true", "false", "false", "true"]))
     CP = "fn cp(x) { let c = []; let i = 0; while i < len(x) { push(c, x[i]); i = i + 1; } c } "
     return [(CP + t, e) for t, e in out]
 
